@@ -112,11 +112,32 @@ type c25Case struct {
 	Buf      int       `json:"buf"`
 	Pages    []pageCfg `json:"pages"`
 	Ops      []opCfg   `json:"ops"`
+	// C03 only (C25 rejects them): MMU auto-allocation, and pages that ops may
+	// name (index len(Pages)+k) although they are not in the table at start.
+	AutoAlloc bool      `json:"auto_alloc,omitempty"`
+	// Stall > 0: the driver leaves its incoming messages unread during every
+	// other window of Stall cycles (backpressure into the stack). C03 only.
+	Stall int `json:"stall,omitempty"`
+	Unmapped  []pageCfg `json:"unmapped,omitempty"`
 }
 
 func (c *c25Case) pageSize() uint64 { return 1 << c.Log2 }
 
-func (c *c25Case) validate() error {
+func (c *c25Case) validate() error { return c.validateWith(false) }
+
+// validateWith(loose=true) is the C03 domain: frames may be shared between
+// pages, and with AutoAlloc (MMU bottom only) ops may touch unmapped pages.
+func (c *c25Case) validateWith(loose bool) error {
+	if !loose && (c.AutoAlloc || len(c.Unmapped) > 0 || c.Stall != 0) {
+		return fmt.Errorf("auto-allocation is outside the C25 domain")
+	}
+	if len(c.Unmapped) > 0 && (!c.AutoAlloc || c.Bottom != "mmu") {
+		return fmt.Errorf("unmapped pages need an auto-allocating MMU at the bottom")
+	}
+	if c.Stall < 0 {
+		return fmt.Errorf("stall")
+	}
+	nAddr := len(c.Pages) + len(c.Unmapped)
 	if c.Log2 != 12 && c.Log2 != 14 && c.Log2 != 16 {
 		return fmt.Errorf("log2 %d", c.Log2)
 	}
@@ -144,27 +165,34 @@ func (c *c25Case) validate() error {
 	keys := map[[2]uint64]bool{}
 	for _, p := range c.Pages {
 		k := [2]uint64{uint64(p.PID), p.VPN}
-		if p.PID == 0 || keys[k] || frames[p.Frame] || p.Frame == 0 ||
+		if p.PID == 0 || keys[k] || (frames[p.Frame] && !loose) || p.Frame == 0 ||
 			p.Frame<<c.Log2 >= memCapacity/2 || p.VPN >= 1<<(63-c.Log2) {
 			return fmt.Errorf("page %+v", p)
 		}
 		keys[k], frames[p.Frame] = true, true
 	}
+	for _, p := range c.Unmapped {
+		k := [2]uint64{uint64(p.PID), p.VPN}
+		if p.PID == 0 || keys[k] || p.VPN >= 1<<(63-c.Log2) {
+			return fmt.Errorf("unmapped %+v", p)
+		}
+		keys[k] = true
+	}
 	for i, o := range c.Ops {
 		switch o.K {
 		case "rd", "wr":
-			if o.Page < 0 || o.Page >= len(c.Pages) || o.Size < 1 || o.Size > 64 || o.Off+uint64(o.Size) > c.pageSize() {
+			if o.Page < 0 || o.Page >= nAddr || o.Size < 1 || o.Size > 64 || o.Off+uint64(o.Size) > c.pageSize() {
 				return fmt.Errorf("op %d %+v", i, o)
 			}
 			if o.K == "wr" && (o.Off%16+uint64(o.Size) > 16) {
 				return fmt.Errorf("op %d write leaves its chunk", i)
 			}
 		case "tr":
-			if o.Page < 0 || o.Page >= len(c.Pages) || o.Level < 0 {
+			if o.Page < 0 || o.Page >= nAddr || o.Level < 0 {
 				return fmt.Errorf("op %d %+v", i, o)
 			}
 		case "upd":
-			if o.Page < 0 || o.Page >= len(c.Pages) || frames[o.Frame] || o.Frame == 0 || o.Frame<<c.Log2 >= memCapacity/2 {
+			if o.Page < 0 || o.Page >= len(c.Pages) || (frames[o.Frame] && !loose) || o.Frame == 0 || o.Frame<<c.Log2 >= memCapacity/2 {
 				return fmt.Errorf("op %d %+v (frames must never repeat)", i, o)
 			}
 			frames[o.Frame] = true
@@ -305,6 +333,7 @@ type stack struct {
 	drv    *driver
 
 	allPorts []messaging.Port
+	conns    []*directconnection.Comp
 	viols    []violation
 	trs      []trRecord
 	atPend   map[uint64]messaging.Msg
@@ -331,6 +360,7 @@ func (st *stack) port(comp messaging.Component, name string, buf int) messaging.
 
 func (st *stack) connect(name string, ports ...messaging.Port) {
 	conn := directconnection.MakeBuilder().WithRegistrar(st.reg).Build(name)
+	st.conns = append(st.conns, conn)
 	for _, p := range ports {
 		if p != nil {
 			conn.PlugIn(p)
@@ -388,6 +418,7 @@ func buildStack(c *c25Case) *stack {
 	ms2.Log2PageSize = c.Log2
 	ms2.Latency = c.MMULat
 	ms2.MaxRequestsInFlight = c.MMUMax
+	ms2.AutoPageAllocation = c.AutoAlloc
 	st.mmu = mmu.MakeBuilder().WithRegistrar(st.reg).WithSpec(ms2).
 		WithResources(mmu.Resources{PageTable: st.pt}).Build("MMU")
 	st.port(st.mmu, "Top", buf)
